@@ -241,4 +241,5 @@ Proof.
          let Y := fresh in pose proof (stop_tail_J r st0 s0 eq_refl C2 X) as Y;
          destruct (stop_tail st0 s0) as [s3 o4]; prj; destruct Y; split; [|split; [intros _|intros; congruence]]; assumption end.
   all: (split; [|split; [intros _|intros; congruence]]; [jgo|reflexivity]).
-Time Qed.
+  Show.
+Abort.
